@@ -263,7 +263,7 @@ Definition cfg_wf (F : family_cfg) : bool :=
   let scan := f_submit_scan F in
   let s0 := stack0 F in
   ((1 <=? scan)%nat && (scan <=? n)%nat && (length (f_init_lens F) =? n)%nat &&
-   (1 <=? f_bsize F) && (1 <=? max_blocks F) &&
+   (1 <=? f_bsize F) && (1 <=? max_blocks F) && (3 <=? max_blocks F) && (2 ^ 32 mod f_bsize F =? 0) &&
    (* the stack: every lane exactly once, terminated or filling the word *)
    (1 <=? ent) && (f_pop_bits F <=? ent) && (nN <=? 2 ^ f_pop_bits F) && (nN <? 2 ^ 32) &&
    (length s0 =? n)%nat && nodupb s0 && forallb (fun l => (l <? n)%nat) s0 &&
@@ -354,7 +354,8 @@ Fixpoint lresubmit (fuel : nat) (s : lst) (cur : option nat) : lst * outcome :=
     end
   end.
 
-Definition held_count (s : lst) : nat := length (filter occupied (m_lanes (lmgr s))).
+(* fuel of the loops (a device of the model, as in Model.HashCtx): from the number of jobs inside the manager *)
+Definition held_count (s : lst) : nat := N.to_nat (m_inuse (lmgr s)).
 Definition lfuel_for (s : lst) : nat := (3 * (held_count s + 2))%nat.
 
 Definition lctx_submit (s : lst) (cid : nat) (buf : list N) (flags : N) : lst * outcome :=
